@@ -293,7 +293,7 @@ func TestC19Random(t *testing.T) {
 	rec := evid.New(t, "C19", "random values: ordinary enums - random uint64 (biased to small, to neighbours of constants and to >= 2^32); bitmask enums - random subsets of the defined single-bit flags; same oracle as the enumeration; non-trivial = unnamed value >= 2^32 or subset of >= 3 flags; distinct by (type, value)")
 	rec.Require("unnamed>=2^32", "subset>=3")
 	enums := allEnums(t)
-	evid.Check(t, rec, evid.N(60000, 400000), func(t *rapid.T) {
+	evid.Check(t, rec, evid.N(200000, 800000), func(t *rapid.T) {
 		e := enums[rapid.IntRange(0, len(enums)-1).Draw(t, "enum")]
 		name := e.reg.Pkg + "." + e.reg.Name
 		var cls []string
